@@ -35,7 +35,7 @@ import (
 	mw "verif/mqttwire"
 )
 
-const c19Rule = "accounts: broker with the auth plugin, hash in {plain,md5,sha256,bcrypt}, password file absolute / relative with ConfigDir = cwd / relative with ConfigDir != cwd; 4-20 steps over Update(user,password) / Delete(user) through the exported account handlers, broker restart on the same configuration, and CONNECT attempts (v3.1/v3.1.1/v5, all four user-name/password flag combinations, user-name class exact|case|prefix|suffix|empty|unknown, password class exact|case|prefix|suffix|empty|other account's|stored hash string|binary, v5 Authentication Method / Data optionally present; 3 user names and passwords from pools with YAML-significant, non-ASCII, empty and maximal strings), then a forced restart and further attempts incl. the exact credentials of every user; oracle: harness model map[user]plaintext, accepted (CONNACK 0) <=> user name flag set, user present, password equal (never the plugin's compare); a rejected CONNECT gets a failure CONNACK or a close / silence, never code 0, and leaves no session. pre-auth: broker with the auth plugin / with an OnBasicAuth hook / without authentication; a rogue connection sends 1-8 packets from {SUBSCRIBE v/#, retained PUBLISH v/r QoS0/1, UNSUBSCRIBE, PUBREL, PUBACK, DISCONNECT, AUTH, PINGREQ, garbage, a second (valid) CONNECT} before any CONNECT or after a CONNECT that is rejected (bad credentials, bad protocol level, empty client id; optionally with a retained will; optionally under the bystander's client id) and holds the connection open; an authenticated bystander subscribed to '#' must receive nothing (API sentinel barrier), sessions / subscriptions / retained store must show only the legitimate clients, also after the rogue connection was closed and a late subscriber of v/# joined. Non-trivial: a CONNECT attempt with a near-miss credential against an existing account (user or password class other than exact / unknown and actually different from the stored pair), or a pre-CONNECT sequence containing SUBSCRIBE / retained PUBLISH / UNSUBSCRIBE; distinct by scenario digest."
+const c19Rule = "accounts: broker with the auth plugin, hash in {plain,md5,sha256,bcrypt}, password file absolute / relative with ConfigDir = cwd / relative with ConfigDir != cwd; 4-20 steps over Update(user,password) / Delete(user) through the exported account handlers, broker restart on the same configuration, and CONNECT attempts (v3.1/v3.1.1/v5, all four user-name/password flag combinations, user-name class exact|case|prefix|suffix|empty|unknown, password class exact|case|prefix|suffix|empty|other account's|stored hash string|binary, v5 Authentication Method / Data optionally present; 3 user names and passwords from pools with YAML-significant, non-ASCII, empty and maximal strings), then a forced restart and further attempts incl. the exact credentials of every user; oracle: harness model map[user]plaintext, accepted (CONNACK 0) <=> user name flag set, user present, password equal (never the plugin's compare); a rejected CONNECT gets a failure CONNACK or a close / silence, never code 0, and leaves no session. pre-auth: broker with the auth plugin / with an OnBasicAuth hook / without authentication; a rogue connection sends 1-8 packets from {SUBSCRIBE v/# | # | the bystander sentinel filter, PUBLISH v/r QoS0/1 (retained, sometimes not), UNSUBSCRIBE, PUBREL, PUBACK, DISCONNECT, AUTH, PINGREQ, garbage, a second (valid) CONNECT} before any CONNECT or after a CONNECT that is rejected (bad credentials, bad protocol level, empty client id; optionally with a retained will; optionally under the bystander's client id) and holds the connection open; an authenticated bystander subscribed to '#' must receive nothing (API sentinel barrier), sessions / subscriptions / retained store must show only the legitimate clients, also after the rogue connection was closed and a late subscriber of v/# joined. Non-trivial: a CONNECT attempt with a near-miss credential against an existing account (user or password class other than exact / unknown and actually different from the stored pair), or a pre-CONNECT sequence containing SUBSCRIBE / retained PUBLISH / UNSUBSCRIBE; distinct by scenario digest."
 
 // ---------------------------------------------------------------------------------------
 // shared: one CONNECT attempt and its outcome
@@ -563,14 +563,29 @@ func runC19(s c19Scen, c *ev.Case) *ev.Violation {
 			if old, _ := m.expect(st.UF, st.PF, user, string(pw), prevCur); old == got {
 				assertion = "C19.api-effect"
 			}
-		} else if m.restarts > 0 {
+		} else if m.restarts > 0 && phase == "after_restart_exact" {
+			// the same probe agreed with the model right before the restart
 			assertion = "C19.restart-load"
 		}
 		return ev.Violf(assertion, "attempt %d (%s, %d restart(s) so far): user %q password %q: model says accept=%v, broker: %s; accounts in the model: %s",
 			attempt, phase, m.restarts, clipStr19(user), clipStr19(string(pw)), want, res, m.describe()).With(feat...)
 	}
 
+	// probes: the exact credentials of every user name and one unknown user. Run right before
+	// and right after every restart so that a disagreement after the restart that was not there
+	// before it is attributable to loading.
+	probes := func(phase string) *ev.Violation {
+		for i := range users {
+			if v := doConnect(c19Step{Op: "connect", U: i, V: 4, UF: true, PF: true, UC: "exact", PC: "exact"}, phase); v != nil {
+				return v
+			}
+		}
+		return doConnect(c19Step{Op: "connect", U: 0, V: 4, UF: true, PF: true, UC: "unknown", PC: "exact"}, phase)
+	}
 	restart := func() *ev.Violation {
+		if v := probes("before_restart"); v != nil {
+			return v
+		}
 		if err := b.Stop(); err != nil {
 			return harnessErr("stop: %v", err)
 		}
@@ -617,6 +632,9 @@ func runC19(s c19Scen, c *ev.Case) *ev.Violation {
 			if v := restart(); v != nil {
 				return v
 			}
+			if v := probes("after_restart_exact"); v != nil {
+				return v
+			}
 			c.Label("restart_mid_history")
 		case "connect":
 			if v := doConnect(st, "history"); v != nil {
@@ -630,13 +648,11 @@ func runC19(s c19Scen, c *ev.Case) *ev.Violation {
 	if v := restart(); v != nil {
 		return v
 	}
+	if v := probes("after_restart_exact"); v != nil {
+		return v
+	}
 	for _, st := range s.After {
 		if v := doConnect(st, "after_restart"); v != nil {
-			return v
-		}
-	}
-	for i := range users {
-		if v := doConnect(c19Step{Op: "connect", U: i, V: 4, UF: true, PF: true, UC: "exact", PC: "exact"}, "after_restart_exact"); v != nil {
 			return v
 		}
 	}
